@@ -284,8 +284,14 @@ def enabled_ops(m, maxrows):
             ops.append(['ints_range', 0, n, 2])
             ops.append(['ints_range', 0, n, 1])
             ops.append(['ints_np', [n - 1, 0]])
-            for il in ([0], [n - 1], [0, 0], [n - 1, 0], [-1]):
+            for il in ([0], [n - 1], [0, 0], [n - 1, 0], [-1], [-1, 0], [0, 1][:n]):
                 ops.append(['ints', il])
+            if n >= 2:
+                ops.append(['ints', [-2, -1]])               # consecutive ascending positions that END at -1 (a slice a:b+1 would stop at 0)
+                ops.append(['ints', [1, 0]])
+            if n >= 3:
+                ops.append(['ints', [-3, -2, -1]])
+                ops.append(['ints', [-2, -1, 0]])
         for k in range(1, len(cols) + 1):
             for sub in itertools.combinations(cols, k):
                 ops.append(['proj', list(sub)])
@@ -297,6 +303,8 @@ def enabled_ops(m, maxrows):
         if 'a' in cols and 'c' not in cols:
             ops.append(['rename', 'a2c'])
         ops.append(['rename', 'rot'])
+        if 'a' in cols and 'b' in cols:
+            ops.append(['rename', 'swap_ab'])
         ops.append(['rename', 'prefix_roundtrip'])
         ops.append(['do', 'flipnone', [cols[0]]])
         ops.append(['do', 'flipnone', []])
@@ -459,6 +467,9 @@ def apply_op(op, t, m):
             elif op[1] == 'rot':
                 mp = lambda c: ROT[c]
                 res = t.rename(lambda k: ROT[k])
+            elif op[1] == 'swap_ab':
+                mp = lambda c: {'a': 'b', 'b': 'a'}.get(c, c)
+                res = t.rename(a='b', b='a')               # two cooperating renames in ONE call
             else:
                 mp = lambda c: c
                 mid = t.rename('p_')
